@@ -223,6 +223,8 @@ def lower_term(c, i, maxdeg):
         e = L.var(v) if e is None else ["mul", e, L.var(v)]
     if deg == 1 and c.b(0.25):
         e = ["pow", e, c.integer(2, 3)]
+    elif deg == 1 and c.b(0.1):
+        e = ["pow", ["neg", e], 2]  # (-v)**2: a signed atom in parentheses as the base of a power
     return e
 
 
@@ -263,10 +265,15 @@ def cont_draw(c, i=None):
     """continuous draw, possibly with location/scale depending on lower variables"""
     fam = c.pick(["Normal", "Uniform", "Laplace", "DistExp", "Gamma", "Beta"])
     loc = None
-    if i is not None and c.b(0.4):
+    if i is not None and c.b(0.6):
         pool = list(c.fin) + c.num[:i] + ([c.num[i]] if c.b(0.5) else [])
         if pool:
             loc = L.var(c.pick(pool))
+            if c.b(0.35):
+                # a compound location (sum / difference): the rewriting into a fixed draw plus arithmetic has to keep it together
+                loc = c.pick([["sub", loc, L.num(1)], ["add", loc, L.num("1/2")], ["sub", ["mul", L.num(2), loc], L.num(1)]])
+    if loc is not None:
+        fam = c.pick(["Uniform", "Normal", "Laplace"])  # the families whose location may depend on variables
     if fam == "Normal":
         mu = loc if loc is not None else L.num(c.pick([0, 0, 1, -1, 2, "1/2"]))
         return ["draw", "Normal", [mu, L.num(c.pick([1, 1, 4, "1/4", 9, 2]))]]
@@ -292,6 +299,8 @@ def cont_draw(c, i=None):
 
 def numeric_rhs(c, i):
     r = c.integer(0, 9)
+    if c.cont and not c.lincyc and r in (3, 4):
+        return cont_draw(c, i)  # programs with continuous draws: a fifth of the numeric assignments are draws
     if r <= 5:
         return ["expr", numeric_poly(c, i)]
     if r <= 7:
@@ -547,6 +556,20 @@ def programs(draw, profile="discrete", uninit_ok=True, min_body=1, max_body=4):
         c.subclasses = sub
         uninit_ok = False
     body = draw_var_stmts(c) + block(c, 0, c.integer(min_body, max_body))
+    locdraw = False
+    if c.cont and not c.lincyc and (c.num or c.fin) and c.b(0.4):
+        # a draw whose location depends on a program variable (rewritten by DistTransformer into a fixed draw plus arithmetic)
+        base_v = L.var(c.pick(c.num + list(c.fin)))
+        loc = c.pick([base_v, ["sub", base_v, L.num(1)], ["add", base_v, L.num("1/2")], ["sub", ["mul", L.num(2), base_v], L.num(1)]])
+        fam = c.pick(["Uniform", "Normal", "Laplace"])
+        if fam == "Uniform":
+            rhs = ["draw", "Uniform", [loc, ["add", loc, L.num(c.pick([1, 2, "1/2"]))]]]
+        elif fam == "Normal":
+            rhs = ["draw", "Normal", [loc, L.num(c.pick([1, 4, "1/4"]))]]
+        else:
+            rhs = ["draw", "Laplace", [loc, L.num(c.pick([1, 2, "1/2"]))]]
+        body.insert(c.integer(0, len(body)), ["assign", "g", rhs])
+        locdraw = True
     if c.big:
         # the dice are thrown at the start of the iteration, conditions look at their sum
         for f, D in c.fin.items():
@@ -580,6 +603,8 @@ def programs(draw, profile="discrete", uninit_ok=True, min_body=1, max_body=4):
             init.append(["assign", u, ["expr", L.num(0)]])
     if c.uses_counter:
         init.append(["assign", "k", ["expr", L.num(0)]])
+    if locdraw:
+        init.append(["assign", "g", ["expr", L.num(0)]])
     if shadow is not None:
         iv = [st_ for st_ in init if st_[0] == "assign" and st_[1] == shadow and st_[2][0] == "expr" and st_[2][1][0] == "num"]
         init.append(["assign", "h", ["expr", iv[0][2][1] if iv else L.num(0)]])
